@@ -22,7 +22,7 @@ RULE = ('cases are sequences of 2-10 foreign (reference-peer) or PGPy-made signa
         'comparison and the verify verdict were evaluated; distinct = distinct sequences of (signature type, sorted '
         'subpacket types) among non-trivial runs')
 TIERS = {'quick': {'runs': 4000, 'budget_s': 60}, 'thorough': {'runs': 250000, 'budget_s': 1500}}
-PROBES = ('verified_via_copy', 'unknown_subpacket_type', 'critical_bit', 'nonshortest_length', 'five_octet_length', 'two_octet_length',
+PROBES = ('embedded_back_signature', 'verified_via_copy', 'unknown_subpacket_type', 'critical_bit', 'nonshortest_length', 'five_octet_length', 'two_octet_length',
           'boolean_other', 'boolean_true', 'flag_unknown_bits', 'multi_octet_flags', 'non_ascii_text', 'non_utf8_text',
           'rejected_at_parse', 'flip_rejected_at_parse', 'flip_verified_false', 'pgpy_made_reimported', 'empty_subpacket_body',
           'old_format_header', 'rsa_signer', 'dsa_signer', 'ecdsa_signer', 'eddsa_signer')
@@ -109,6 +109,15 @@ def generate(rng, tier):
                           'opts': rng.sample(['notation', 'notation_utf8', 'policy', 'policy_utf8', 'expires', 'revocable_false', 'user'],
                                              rng.randint(0, 3)),
                           'text': rng.choice(['hello', 'l1\nl2\n', '']), 'hash': rng.choice(['SHA256', 'SHA512', 'SHA1'])})
+            continue
+        if rng.random() < 0.12:
+            # a signing subkey whose binding carries an embedded primary-key-binding signature (0x19) with a drawn hashed area
+            sps = [gen_subpacket(rng) for _ in range(rng.choice([0, 1, 2, 3]))]
+            sps.insert(rng.randrange(len(sps) + 1), {'t': 2, 'crit': False, 'body': (created + 5).to_bytes(4, 'big').hex(),
+                                                     'lenenc': 5 if rng.random() < 0.2 else None})
+            steps.append({'id': sid, 'op': 'ref_backsig', 'halg': rng.choice(HASHES), 'hashed': sps,
+                          'faults': [{'kind': 'F1', 'pos': rng.random()} for _ in range(rng.choice([0, 2, 4]))],
+                          'via_copy': rng.random() < 0.4})
             continue
         sk = rng.choice(['doc', 'doc', 'text', 'none', 'uid', 'uid', 'key', 'uidrev', 'keyrev'])
         if sk == 'doc':
@@ -257,9 +266,82 @@ def execute(case, ctx):
                 pgpy_priv = world.build_key({'alg': 'ed25519', 'uids': [['Local', 'c', 'l@example.org']], 'usage': 'CS'}, 'c05local')
             _pgpy_reimport(pgpy, pgpy_priv, step, ctx)
             continue
+        if step['op'] == 'ref_backsig':
+            _ref_backsig_step(pgpy, body, alg, secret, pub, uid_octets, cfg, step, case, ctx, shapes)
+            continue
         _ref_sign_step(pgpy, pkey, pub, secret, uid_octets, step, ctx, shapes)
     if shapes:
         ctx.mark_nontrivial(';'.join(shapes))
+
+
+def _ref_backsig_step(pgpy, body, alg, secret, pub, uid_octets, cfg, step, case, ctx, shapes):
+    """A reference-peer key with a signing subkey: the embedded back signature is a signature like any other - its hashed area
+    is verified as received, and a changed bit in it is noticed."""
+    created = cfg['created']
+    sb, salg, ssec = make_ref_key('ed25519', created, b'', case['run_seed'], label=step['id'] + '.sub')
+    spub = rkeys.parse_pub(sb)
+    subj = rsigs.subject_subkey(pub, spub)
+    eh = b''.join(_sp_bytes(sp) for sp in step['hashed']) + rsigs.sp_issuer_fpr(spub.fingerprint)
+    if len(eh) > 60000 or max_declared_subpacket_length(eh) > 70000:
+        return
+    emb = rsigs.sign(0x19, spub, ssec, step['halg'], eh, rsigs.sp_issuer(spub.keyid), subj)
+    base = bridge.build_ref_tkey(body, alg, secret, uid_octets, created)
+
+    def key_with(embedded):
+        h = rsigs.sp_created(created) + rsigs.sp_keyflags(0x02) + rsigs.sp_issuer_fpr(pub.fingerprint)
+        uh = rsigs.sp_issuer(pub.keyid) + encode_subpacket(32, embedded)
+        return base + encode_packet(14, sb) + encode_packet(2, rsigs.sign(0x18, pub, secret, 8, h, uh, subj))
+
+    def judge(blob):
+        K = pgpy.PGPKey.from_blob(blob)[0]
+        if step.get('via_copy'):
+            K = copy.copy(K)
+        sk = list(K.subkeys.values())[0]
+        res = K.verify(sk)
+        return bool(res), len(list(res.good_signatures)), len(list(res.bad_signatures))
+
+    ctx.probe('embedded_back_signature')
+    ctx.checked()
+    try:
+        ok, ngood, nbad = judge(key_with(emb))
+    except Exception as e:
+        ok, ngood, nbad = e, 0, 0
+    if ok is not True or nbad:
+        ctx.viol('C05:foreign-valid-rejected:embedded19', 'a valid embedded primary-key-binding signature (hashed subpacket types %s%s) makes '
+                 'verify(subkey) fail under PGPy: %r' % (sorted(set(sp['t'] for sp in step['hashed'])), ', via a copy' if step.get('via_copy') else '', ok))
+    ctx.event(step['id'], 'ref_backsig', 'accepted' if ok is True else 'rejected')
+    shapes.append('19:%s' % ','.join(str(sp['t']) for sp in step['hashed']))
+    es = rsigs.parse_sig(emb)
+    region = len(es.header_octets())
+    for f in step.get('faults', []):
+        bit = int(f['pos'] * region * 8) % (region * 8)
+        off, b = divmod(bit, 8)
+        mut = bytearray(emb)
+        mut[off] ^= 1 << b
+        hl = int.from_bytes(mut[4:6], 'big')
+        if max_declared_subpacket_length(bytes(mut[6:6 + hl])) > 70000:
+            ctx.probe('flip_skipped_giant_length')
+            continue
+        try:
+            if rsigs.verify(rsigs.parse_sig(bytes(mut)), spub, subj):
+                continue
+        except (WireError, Exception):
+            pass
+        ctx.fault('F1')
+        try:
+            with watchdog(30):
+                ok2, ngood2, nbad2 = judge(key_with(bytes(mut)))
+        except CallTimeout:
+            ctx.probe('pgpy_call_timeout')
+            continue
+        except Exception:
+            ctx.probe('flip_rejected_at_parse')
+            continue
+        ctx.checked()
+        if ok2 and ngood2 >= 2:
+            ctx.viol('C05:flip-accepted:embedded19', 'flipping bit %d of octet %d of the hashed region of an embedded back signature: '
+                     'verify(subkey) is still truthy with %d good signatures' % (b, off, ngood2))
+        ctx.probe('flip_verified_false')
 
 
 def _subject(pgpy, pkey, pub, uid_octets, subj):
